@@ -542,6 +542,134 @@ theorem ftp_crawl_requests_in_scope (o : Oracles) (fs : List Filter) (r : Rec) (
   ⟨(ftp_requests_in_scope o fs _ _ shape perm v red h).1, ftp_record_level_is_link_distance r u path,
    (ftp_requests_in_scope o fs _ _ shape perm v red h).2⟩
 
+/-! ### scraped links: the stored record is the link-kind record -/
+
+/-- the number of consecutive embedding steps at the end of a chain of links -/
+def trailingInline (path : List LinkStep) : Nat := (path.reverse.takeWhile (fun s => s.inline)).length
+
+theorem trailingInline_append (path : List LinkStep) (s : LinkStep) :
+    trailingInline (path ++ [s]) = if s.inline then trailingInline path + 1 else 0 := by
+  unfold trailingInline
+  cases h : s.inline <;> simp [List.takeWhile, h]
+
+theorem httpRecordAlong_append (r : Rec) (u : Info) (path : List LinkStep) (s : LinkStep) :
+    httpRecordAlong r u (path ++ [s]) =
+      (httpChildRecord (httpRecordAlong r u path).1 (httpRecordAlong r u path).2 s, s.child) := by
+  simp [httpRecordAlong, List.foldl_append]
+
+/-- **the stored record is the link-kind record**: from a command-line URL (not inline), along every
+chain of scraped links, the stored `level` is the number of links and the stored `inline_level` is the
+number of consecutive embedding steps the chain ends with — `None` as soon as the last step is a plain
+hyperlink, however deeply embedded the document it was found in. -/
+theorem http_record_is_link_kind_record (r : Rec) (u : Info) (path : List LinkStep)
+    (h0 : r.inlineLevel = none) :
+    (httpRecordAlong r u path).1.level = r.level + path.length ∧
+    (httpRecordAlong r u path).1.inlineLevel =
+      (if trailingInline path = 0 then none else some (trailingInline path)) := by
+  suffices aux : ∀ l : List LinkStep,
+      (httpRecordAlong r u l.reverse).1.level = r.level + l.reverse.length ∧
+      (httpRecordAlong r u l.reverse).1.inlineLevel =
+        (if trailingInline l.reverse = 0 then none else some (trailingInline l.reverse)) by
+    simpa using aux path.reverse
+  intro l
+  induction l with
+  | nil => simp [httpRecordAlong, trailingInline, h0]
+  | cons s t ih =>
+    rw [List.reverse_cons, httpRecordAlong_append, trailingInline_append]
+    obtain ⟨hl, hi⟩ := ih
+    constructor
+    · simp [httpChildRecord, hl]; omega
+    · cases hs : s.inline
+      · simp [httpChildRecord, hs]
+      · simp only [httpChildRecord, hs, ↓reduceIte, hi]
+        by_cases ht : trailingInline t.reverse = 0 <;> simp [ht]
+
+/-- A plain hyperlink is never stored as a page requisite, so none of the rules relaxed for
+requisites (no-parent, span-hosts-allow page-requisites, the +2 depth allowance) applies to it. -/
+theorem plain_link_is_not_inline (r : Rec) (u : Info) (path : List LinkStep) (s : LinkStep)
+    (hs : s.inline = false) : truthy (httpRecordAlong r u (path ++ [s])).1.inlineLevel = false := by
+  rw [httpRecordAlong_append]
+  simp [httpChildRecord, hs, truthy]
+
+/-! ### comma separated option values -/
+
+theorem head_dropWhile_not {α} (p : α → Bool) (l : List α) (a : α)
+    (h : (l.dropWhile p).head? = some a) : p a = false := by
+  induction l with
+  | nil => simp at h
+  | cons b t ih =>
+    simp only [List.dropWhile] at h
+    cases hb : p b
+    · simp [hb] at h; exact h ▸ hb
+    · simp only [hb] at h; exact ih h
+
+theorem mem_dropWhile {α} (p : α → Bool) (l : List α) (a : α) (h : a ∈ l.dropWhile p) : a ∈ l := by
+  induction l with
+  | nil => simp at h
+  | cons b t ih =>
+    simp only [List.dropWhile] at h
+    cases hb : p b
+    · simp [hb] at h; simpa using h
+    · simp only [hb] at h; exact List.mem_cons_of_mem _ (ih h)
+
+theorem mem_splitOn1_go_no_sep (sep : Nat) : ∀ (s acc : List Nat), sep ∉ acc →
+    ∀ e ∈ splitOn1.go sep s acc, sep ∉ e := by
+  intro s
+  induction s with
+  | nil => intro acc hacc e he; simp [splitOn1.go] at he; subst he; simpa using hacc
+  | cons c t ih =>
+    intro acc hacc e he
+    simp only [splitOn1.go] at he
+    by_cases hc : (c == sep) = true
+    · simp only [hc, ↓reduceIte, List.mem_cons] at he
+      rcases he with rfl | he
+      · simpa using hacc
+      · exact ih [] (by simp) e he
+    · simp only [hc, Bool.false_eq_true, ↓reduceIte] at he
+      refine ih (c :: acc) ?_ e he
+      simp only [List.mem_cons, not_or]
+      exact ⟨fun h => hc (by simp [h]), hacc⟩
+
+/-- **what `comma_list` hands to the filters**: no entry is empty, none begins or ends with a
+blank, none contains a comma — so `-D 'a.test, b.test,'` means exactly `a.test` and `b.test`. -/
+theorem commaList_entries_clean (s : Str) :
+    ∀ e ∈ commaList s, e ≠ [] ∧ (∀ a, e.head? = some a → isPySpace a = false) ∧
+      (∀ a, e.getLast? = some a → isPySpace a = false) ∧ 44 ∉ e := by
+  intro e he
+  simp only [commaList, List.mem_filter, List.mem_map] at he
+  obtain ⟨⟨x, hx, rfl⟩, hne⟩ := he
+  refine ⟨by simpa using hne, ?_, ?_, ?_⟩
+  · -- first character: the reverse of a dropWhile over the reversed, itself a suffix of a dropWhile
+    intro a ha
+    unfold pyStrip at ha
+    -- the head of the stripped string is an element of `x.dropWhile isPySpace` ... and it is its head
+    have hmem : a ∈ ((x.dropWhile isPySpace).reverse.dropWhile isPySpace).reverse := List.mem_of_mem_head? ha
+    -- write x.dropWhile = y; stripped = y minus trailing blanks = a prefix of y
+    generalize hy : x.dropWhile isPySpace = y at ha hmem
+    have hpre : ((y.reverse.dropWhile isPySpace).reverse) <+: y := by
+      have := List.dropWhile_suffix (l := y.reverse) isPySpace
+      have := List.reverse_prefix.2 this
+      simpa using this
+    obtain ⟨t, ht⟩ := hpre
+    have hy0 : y.head? = some a := by
+      rw [← ht]
+      cases hz : (y.reverse.dropWhile isPySpace).reverse with
+      | nil => rw [hz] at ha; simp at ha
+      | cons b z => rw [hz] at ha; simp at ha; simp [ha]
+    rw [← hy] at hy0
+    exact head_dropWhile_not _ _ _ hy0
+  · intro a ha
+    unfold pyStrip at ha
+    rw [List.getLast?_reverse] at ha
+    exact head_dropWhile_not _ _ _ ha
+  · intro hmem
+    have hno := mem_splitOn1_go_no_sep 44 s [] (by simp) x (by simpa [splitOn1] using hx)
+    apply hno
+    unfold pyStrip at hmem
+    have h1 : (44 : Nat) ∈ (x.dropWhile isPySpace).reverse.dropWhile isPySpace := by simpa using hmem
+    have h2 := mem_dropWhile _ _ _ h1
+    exact mem_dropWhile _ _ _ (by simpa using h2)
+
 /-! ## non-vacuity: the theorems talk about traces that exist -/
 
 /-- no regex / fnmatch pattern ever matches -/
@@ -597,5 +725,15 @@ example : listingChildLevel true true 0 = 1 ∧ listingChildLevel true false 0 =
 -- without -r the directory a command-line glob matched is not listed (its record is at level 1)
 example : ftpProcess o0 fs0 (recordAlong r0 fFile [⟨true, true, fDir⟩]).1 fDir .known none = [.skip] := by decide
 example : ftpProcess o0 fs0 (recordAlong r0 fDir [⟨true, false, fFile⟩]).1 fFile .known none = [.request fFile false] := by decide
+-- a plain link found inside an embedded document is not a requisite; an image inside it is requisite depth 2
+example : (httpRecordAlong r0 uA [⟨true, uB⟩, ⟨false, uA⟩]).1.inlineLevel = none ∧
+    (httpRecordAlong r0 uA [⟨true, uB⟩, ⟨true, uA⟩]).1.inlineLevel = some 2 ∧
+    (httpRecordAlong r0 uA [⟨true, uB⟩, ⟨false, uA⟩]).1.level = 2 := by decide
+-- comma lists: blanks around commas, empty entries, trailing comma
+example : commaList (lit " a.test , b.test,, ") = [lit "a.test", lit "b.test"] := by decide
+example : commaList (lit "") = [] := by decide
+-- a listed directory covers its tree (the fnmatch oracle sees the pattern with `*` appended)
+example : isSubdir ⟨fun _ _ => false, fun n p => n == lit "/private/sub/x/" && p == lit "/private/*", fun _ _ => false⟩
+    (lit "/private") (lit "/private/sub/x") false true = true := by decide
 
 end Wpull.Filter
